@@ -46,7 +46,9 @@ def gen_text(rng, tier):
         h = rng.choice([50, 500, 5000]) if tier != 'quick' else rng.choice([50, 500, 2000])
         d = rng.choice([50, 500, 5000]) if tier != 'quick' else rng.choice([50, 500, 2000])
         return 'big_counts', '혀' + '어' * (h - 2) + '엉' + rng.choice(['.', '…', '⋮.']) * d + rng.choice(['', '?♥', '\n형'])
-    if k < 0.965:
+    if k < 0.952:
+        return 'table_neighbours', noise.neighbour_text(rng, 40)
+    if k < 0.975:
         # Windows line endings (and other line-ish separators) between short lines that are rich in start / end
         # syllables: locations, and the "is there an end syllable later" rule, must not depend on the separator
         sep = rng.choice(['\r\n', '\r\n', '\r\n', '\n\r', '\r', '\u2028', '\x0b', '\u0085\n'])
